@@ -352,13 +352,18 @@ def sp_case(g, tier):
     for z in nzs:
         _, dz = rnd_scales(g, z)
         Qs.append(scale_cov(rnd_psd(g, z, r.choice(PSD_STYLES)), dz))
-    toks = ["sp", str(lin), "0", "0", str(k), str(naug)] + [str(z) for z in nzs] + [hexd(c)]
-    toks += [hexd(means[i][j]) for i in range(k) for j in range(n0)]
-    toks += [hexd(Ps[i][a][b]) for i in range(k) for b in range(n0) for a in range(n0)]
-    for Q in Qs:
-        toks += cm_tokens(Q)
     meta = {"lin": lin, "k": k, "nzs": nzs, "c": c, "style": style, "scale": skind, "means": means, "Ps": Ps, "Qs": Qs}
-    return " ".join(toks), meta
+    return sp_line(meta), meta
+
+
+def sp_line(meta):
+    lin, k, nzs = meta["lin"], meta["k"], meta["nzs"]
+    toks = ["sp", str(lin), "0", "0", str(k), str(len(nzs))] + [str(z) for z in nzs] + [hexd(meta["c"])]
+    toks += [hexd(meta["means"][i][j]) for i in range(k) for j in range(lin)]
+    toks += [hexd(meta["Ps"][i][a][b]) for i in range(k) for b in range(lin) for a in range(lin)]
+    for Q in meta["Qs"]:
+        toks += cm_tokens(Q)
+    return " ".join(toks)
 
 
 def points_stage(ctx, binary, stats, hist, only=None):
@@ -506,16 +511,21 @@ def ut_case(g, tier, idx):
         Nadd = scale_cov(rnd_psd(g, ny, r.choice(["full", "dyadic", "singular", "zero"])), dn)
     if skind in ("tiny", "small", "large", "huge"):
         bv = [v * d[0] for v in bv]
-    toks = ["ut", mode, str(nx), str(nz), str(ny), str(k), hexd(alpha), hexd(beta), hexd(kappa), "1" if valid else "0"]
-    toks += cm_tokens(A) + [hexd(v) for v in bv]
-    toks += [hexd(means[i][j]) for i in range(k) for j in range(nx)]
-    toks += [hexd(Ps[i][a][b]) for i in range(k) for b in range(nx) for a in range(nx)]
-    toks += cm_tokens(Qin) if nz else []
-    if Nadd is not None:
-        toks += cm_tokens(Nadd)
     meta = {"mode": mode, "nx": nx, "nz": nz, "ny": ny, "k": k, "alpha": alpha, "beta": beta, "kappa": kappa, "valid": valid,
             "A": A, "b": bv, "means": means, "Ps": Ps, "Qin": Qin, "Nadd": Nadd, "astyle": astyle, "pstyle": pstyle, "scale": skind}
-    return " ".join(toks), meta
+    return ut_line(meta), meta
+
+
+def ut_line(meta):
+    nx, nz, ny, k = meta["nx"], meta["nz"], meta["ny"], meta["k"]
+    toks = ["ut", meta["mode"], str(nx), str(nz), str(ny), str(k), hexd(meta["alpha"]), hexd(meta["beta"]), hexd(meta["kappa"]), "1" if meta["valid"] else "0"]
+    toks += cm_tokens(meta["A"]) + [hexd(v) for v in meta["b"]]
+    toks += [hexd(meta["means"][i][j]) for i in range(k) for j in range(nx)]
+    toks += [hexd(meta["Ps"][i][a][b]) for i in range(k) for b in range(nx) for a in range(nx)]
+    toks += cm_tokens(meta["Qin"]) if nz else []
+    if meta["Nadd"] is not None:
+        toks += cm_tokens(meta["Nadd"])
+    return " ".join(toks)
 
 
 def parse_ut_out(h, meta):
@@ -976,20 +986,28 @@ def circ_case(g, tier):
     pq = [rnd_unit_quat(g) for _ in range(circO)]
     side = [r.choice([0, 1]) for _ in range(circO)]
     valid = r.random() > 0.08
-    toks = ["utc", str(linI), str(circI), "1" if quat else "0", str(nz), str(linO), str(circO), str(k), hexd(alpha), hexd(beta), hexd(kappa), "1" if valid else "0"]
-    toks += cm_tokens(A) if linO else []
-    toks += [hexd(v) for v in bl]
-    toks += cm_tokens(Cl) if (circO and linI) else []
-    toks += [hexd(v) for v in sgn] + [str(x) for x in perm] + [hexd(v) for v in bc]
-    toks += [hexd(pq[j][i]) for j in range(circO) for i in range(4)]
-    toks += [str(x) for x in side]
-    d0 = li.dim - nz
-    toks += [hexd(means[i][j]) for i in range(k) for j in range(d0)]
-    toks += [hexd(Ps[i][a][b]) for i in range(k) for b in range(dof0) for a in range(dof0)]
-    toks += cm_tokens(Qin) if nz else []
     meta = {"li": li, "lo": lo, "k": k, "alpha": alpha, "beta": beta, "kappa": kappa, "c": c, "valid": valid, "style": style,
             "A": A, "bl": bl, "Cl": Cl, "sgn": sgn, "perm": perm, "bc": bc, "pq": pq, "side": side, "means": means, "Ps": Ps, "Qin": Qin}
-    return " ".join(toks), meta
+    return circ_line(meta), meta
+
+
+def circ_line(meta):
+    li, lo, k = meta["li"], meta["lo"], meta["k"]
+    linI, circI, quat, nz, linO, circO = li.lin, li.circ, li.quat, li.noise, lo.lin, lo.circ
+    dof0 = li.dof - nz
+    toks = ["utc", str(linI), str(circI), "1" if quat else "0", str(nz), str(linO), str(circO), str(k),
+            hexd(meta["alpha"]), hexd(meta["beta"]), hexd(meta["kappa"]), "1" if meta["valid"] else "0"]
+    toks += cm_tokens(meta["A"]) if linO else []
+    toks += [hexd(v) for v in meta["bl"]]
+    toks += cm_tokens(meta["Cl"]) if (circO and linI) else []
+    toks += [hexd(v) for v in meta["sgn"]] + [str(x) for x in meta["perm"]] + [hexd(v) for v in meta["bc"]]
+    toks += [hexd(meta["pq"][j][i]) for j in range(circO) for i in range(4)]
+    toks += [str(x) for x in meta["side"]]
+    d0 = li.dim - nz
+    toks += [hexd(meta["means"][i][j]) for i in range(k) for j in range(d0)]
+    toks += [hexd(meta["Ps"][i][a][b]) for i in range(k) for b in range(dof0) for a in range(dof0)]
+    toks += cm_tokens(meta["Qin"]) if nz else []
+    return " ".join(toks)
 
 
 def circ_closed_forms(meta):
@@ -1404,6 +1422,18 @@ def run(ctx):
         pre["points"] = [sp_case(gp, ctx.tier) for _ in range(ctx.n(70, 2500))]
         pre["transform"] = [ut_case(gt, ctx.tier, i) for i in range(ctx.n(150, 5000))]
         pre["circular"] = [circ_case(gc, ctx.tier) for _ in range(ctx.n(90, 3000))]
+        # regression corpus (boundary cases and minimised past failures), run with every tier and seed
+        import json
+        ncorpus = 0
+        for f in sorted((vlib.VERIF / "corpus" / "C03").glob("*.json")):
+            cr = json.load(open(f))
+            cr = cr.get("replay", cr)
+            if cr.get("stage") in pre and "meta" in cr:
+                m_ = unsnap(cr["meta"])
+                line_ = {"points": lambda m: sp_line(m), "transform": lambda m: ut_line(m), "circular": lambda m: circ_line(m)}[cr["stage"]](m_)
+                pre[cr["stage"]].insert(0, (line_, m_))
+                ncorpus += 1
+        hist["corpus-cases"] = ncorpus
         allc = [l for st_ in ("points", "transform", "circular") for (l, _m) in pre[st_]]
         ctx.gen("interleave").r.shuffle(allc)
         outs, ilogs = vlib.run_harness(binary, allc)
